@@ -36,30 +36,26 @@ inductive Line
   | done
   | brk
   | cont
-  | echo (text : String)                            -- `echo "text"`
+  | echo (text : String)                            -- `printf '%s\n' "text"`
   | exit1
   | nop
-  | evalWrite (content helper path : String)        -- `eval "echo \"c\" ${h} p"`
+  | writeFile (append content path : String)        -- `if [ "a" -eq "1" ]; then printf … >> "p"; else printf … > "p"; fi`
   | dvcIncr                                         -- `_dvc=$((${_dvc}+1))`
-  | evalArrayLit (arr vals : String)                -- `eval "${h}=(…)"`
+  | sahInit (arr : String) (index : Nat) (value : String)   -- `_sah ${h} i "v" ""` (slice literal element)
+  | sliceLoad (target name index : String)          -- `eval "t=\"\${name[idx]}\""`
   | ssh (value a b : String)                        -- `_ssh "v" a b`
   | callFn (name : String) (args : List String)     -- `name "a1" "a2"`
   | sch (dst src : String)                          -- `_sch dst src`
-  | readIn (prompt helper : String)                 -- `read -p "p" _h<n>`
+  | readIn (prompt helper : String)                 -- `IFS= read -r -p "p" h`
   | appCall (text : String)                         -- uncaptured program call chain
 deriving Repr, DecidableEq
-
-def quoteHeuristic (value : String) : String :=
-  if value.length == 0 then value else
-  let v := if value.back != '"' then value ++ "\"" else value
-  if v.front != '"' then "\"" ++ v else v
 
 def Line.render : Line → String
   | .shebang => "#!/bin/bash"
   | .comment t => s!"# global {t} helper"
   | .raw t => t
-  | .assign n v => s!"{n}={quoteHeuristic v}"
-  | .localAssign n v => s!"local {n}={quoteHeuristic v}"
+  | .assign n v => s!"{n}=\"{v}\""
+  | .localAssign n v => s!"local {n}=\"{v}\""
   | .sah a i v d => s!"_sah {a} {i} \"{v}\" \"{d}\""
   | .funcStart n => s!"{n}() \{"
   | .funcEnd => "}"
@@ -75,16 +71,18 @@ def Line.render : Line → String
   | .done => "done"
   | .brk => "break"
   | .cont => "continue"
-  | .echo t => s!"echo \"{t}\""
+  | .echo t => "printf '%s\\n' \"" ++ t ++ "\""
   | .exit1 => "exit 1"
   | .nop => ": # No operation"
-  | .evalWrite c h p => s!"eval \"echo \\\"{c}\\\" {h} {p}\""
+  | .writeFile a c p =>
+      "if [ \"" ++ a ++ "\" -eq \"1\" ]; then printf '%s\\n' \"" ++ c ++ "\" >> \"" ++ p ++ "\"; else printf '%s\\n' \"" ++ c ++ "\" > \"" ++ p ++ "\"; fi"
   | .dvcIncr => "_dvc=$((${_dvc}+1))"
-  | .evalArrayLit a vals => s!"eval \"{a}=({vals})\""
+  | .sahInit a i v => s!"_sah {a} {i} \"{v}\" \"\""
+  | .sliceLoad t n i => "eval \"" ++ t ++ "=\\\"\\${" ++ n ++ "[" ++ i ++ "]}\\\"\""
   | .ssh v a b => s!"_ssh \"{v}\" {a} {b}"
   | .callFn n args => s!"{n} {" ".intercalate (args.map fun a => "\"" ++ a ++ "\"")}"
   | .sch d s => s!"_sch {d} {s}"
-  | .readIn p h => s!"read{p} {h}"
+  | .readIn p h => s!"IFS= read -r{p} {h}"
   | .appCall t => t
 
 structure St where
@@ -145,9 +143,10 @@ def varEvaluation (name : String) (global : Bool) : EM String := do
 def boolStr (b : Bool) : String := if b then "1" else "0"
 
 def sliceLenString (name : String) : String := "$(eval \"echo \\${#" ++ name ++ "[@]}\")"
-def sliceEvaluationString (name index : String) : String := "$(eval \"echo \\${" ++ name ++ "[" ++ index ++ "]}\")"
-def sliceAssignmentString (name index value : String) : String :=
-  "eval \"" ++ name ++ "[" ++ index ++ "]=\\\"" ++ value ++ "\\\"\""
+def sliceEvaluationString (target name index : String) : String :=
+  "eval \"" ++ target ++ "=\\\"\\${" ++ name ++ "[" ++ index ++ "]}\\\"\""
+def sliceAssignmentString (name index valueVar : String) : String :=
+  "eval \"" ++ name ++ "[" ++ index ++ "]=\\\"\\${" ++ valueVar ++ "}\\\"\""
 
 /-- `functionValueType` and the `ValueType()` methods of the AST nodes. -/
 def fnValueType (rets : List ValueType) : ValueType :=
@@ -182,6 +181,12 @@ def Expr.valueType : Expr → ValueType
 
 def firstValue (vs : List String) : String := vs.headD ""
 
+/-- escaping of one character of a string literal (`StringToString`): backslash and double quote -/
+def escChar (c : Char) : List Char := if c == '\\' || c == '"' then ['\\', c] else [c]
+
+/-- bash `StringToString` -/
+def stringToString (s : String) : String := String.ofList (s.toList.flatMap escChar)
+
 /-! ### converter methods (expression side) -/
 
 def condAssign (test : String) (t f : String) : String :=
@@ -206,7 +211,7 @@ def binaryOp (left op right : String) (vt : ValueType) : EM String := do
     else notAllowed
   | .string =>
     if op == "+" then do
-      varAssignment h s!"\"{left}{right}\"" false
+      varAssignment h s!"{left}{right}" false
       varEvaluation h false
     else notAllowed
   | _ => notAllowed
@@ -235,20 +240,26 @@ def logicalOp (left op right : String) : EM String := do
     varEvaluation h false
   else fail s!"unknown logical operator \"{op}\""
 
+def sahInits (arr : String) : List String → Nat → EM Unit
+  | [], _ => pure ()
+  | v :: rest, i => do
+      modify fun s => { s with sahReq := true }
+      addLine (.sahInit arr i v)
+      sahInits arr rest (i + 1)
+
 def sliceInstantiation (values : List String) : EM String := do
   let s ← get
   addLine .dvcIncr
   let h ← nextHelperVar
   varAssignment h ("_dv" ++ varEvalString s "_dvc" true) false
   let s ← get
-  if !values.isEmpty then
-    let vals := values.foldl (fun acc v => acc ++ " \\\"" ++ v ++ "\\\"") ""
-    addLine (.evalArrayLit (varEvalString s h false) vals.trimAscii.toString)
+  sahInits (varEvalString s h false) values 0
   pure (varEvalString s h false)
 
 def sliceEvaluation (name index : String) : EM String := do
   let h ← nextHelperVar
-  varAssignment h (sliceEvaluationString name index) false
+  let s ← get
+  addLine (.sliceLoad (varName s h false) name index)
   varEvaluation h false
 
 def sliceLen (name : String) : EM String := do
@@ -286,8 +297,7 @@ def funcCall (name : String) (args : List String) (rets : List ValueType) (used 
 
 def appCallString (calls : List (String × List String)) : String :=
   " | ".intercalate (calls.map fun (name, args) =>
-    let args' := args.map fun a =>
-      if a.startsWith "$" || (a.splitOn " ").length > 1 then "\"" ++ a ++ "\"" else a
+    let args' := args.map fun a => "\"" ++ a ++ "\""
     name ++ (if args'.isEmpty then "" else " ") ++ " ".intercalate args')
 
 def appCall (calls : List (String × List String)) (used : Bool) : EM (List String) := do
@@ -307,7 +317,8 @@ def appCall (calls : List (String × List String)) (used : Bool) : EM (List Stri
 def inputOp (prompt : String) : EM String := do
   let h ← nextHelperVar
   let p := if prompt.length > 0 then s!" -p \"{prompt}\"" else prompt
-  addLine (.readIn p h)
+  let s ← get
+  addLine (.readIn p (varName s h false))
   varEvaluation h false
 
 def copyOp (dst src : String) (global : Bool) : EM String := do
@@ -339,7 +350,7 @@ def evalExpr (e : Expr) (used : Bool) : EM (List String) :=
   match e with
   | .boolLit b => pure [boolStr b]
   | .intLit n => pure [toString n]
-  | .strLit s => pure [s]                              -- StringToString is the identity
+  | .strLit s => pure [stringToString s]
   | .unary op x _ => do
       let r ← evalExpr x true
       let s ← unaryOp (firstValue r) op
@@ -573,10 +584,7 @@ def evalStmt (st : Stmt) : EM Unit :=
         | some x =>
           if !(Expr.valueType x).isBool then fail s!"expected bool but got {(Expr.valueType x).name} as append flag"
           else do let r ← evalExpr x true; pure (firstValue r)
-      let h ← nextHelperVar
-      varAssignment h (condAssign s!"[ \"{a}\" -eq \"1\" ]" "\">>\"" "\">\"") false
-      let s ← get
-      addLine (.evalWrite (firstValue d) (varEvalString s h false) (firstValue p))
+      addLine (.writeFile a (firstValue d) (firstValue p))
   | .expr e => do
       let _ ← evalExpr e false
       pure ()
@@ -618,9 +626,9 @@ def helperLines (s : St) : List Line :=
      .raw "local _i=${2}",
      .raw ("local _l=" ++ sliceLenString "${1}"),
      .raw "for ((_c=${_l};_c<${_i};_c++)); do",
-     .raw (sliceAssignmentString "${1}" "${_c}" "${4}"),
+     .raw (sliceAssignmentString "${1}" "${_c}" "4"),
      .raw "done",
-     .raw (sliceAssignmentString "${1}" "${_i}" "${3}"),
+     .raw (sliceAssignmentString "${1}" "${_i}" "3"),
      .funcEnd]
    else []) ++
   (if s.schReq then
@@ -629,8 +637,8 @@ def helperLines (s : St) : List Line :=
      .raw ("local _l=" ++ sliceLenString "${2}"),
      .raw "local _n=$(eval \"echo \\${${1}}\")",
      .raw "while [ ${_i} -lt ${_l} ]; do",
-     .raw ("local _v=" ++ sliceEvaluationString "${2}" "${_i}"),
-     .raw (sliceAssignmentString "${_n}" "${_i}" "${_v}"),
+     .raw (sliceEvaluationString "local _v" "${2}" "${_i}"),
+     .raw (sliceAssignmentString "${_n}" "${_i}" "_v"),
      .raw "_i=$((${_i}+1))",
      .raw "done",
      .funcEnd]
